@@ -4,9 +4,11 @@ from vf.ref import atoms, chem
 from vf.ref import pep as rp
 from vf.ref.pep import Pep
 
-DECIDING = ['peptacular.fragmentation.fragment', 'peptacular.mass_calc.mass']
+DECIDING = ['peptacular.fragmentation.fragment', 'peptacular.mass_calc.mass',
+            'peptacular.fragmentation.Fragmenter.fragment']
 RULE = ('peptides of length 2..15 over the 20 standard letters + U,O with numeric/formula modifications on residues and '
-        'termini; fragment(all 16 ion types, charges 1..4) and mass(ion_type=...) are observed and the identities '
+        'termini (15%: the text also carries a charge state /z); fragment(all 16 ion types, charges 1..4), '
+        'Fragmenter(...).fragment(same) and mass(ion_type=...) are observed and the identities '
         'b_i+y_(n-i)=M+2H+, a=b-CO, c=b+NH3, x=y+CO-H2, z=y-NH3, immonium=residue-CO+H+, internal XY(i,j)=X_j+Y_(n-i)-M-H+, '
         'z-fold charge adds (z-1)H+, and "a modification shifts exactly the ions containing it" are evaluated between '
         'observed values, with only CO, NH3, H2, H+ and residue masses taken from the reference atom table. '
@@ -48,6 +50,12 @@ def install(ctx, st: State):
             return
         c['frags'] = call.result
 
+    def fragmenter_post(call):
+        c = st.case
+        if c is None or c.get('phase') != 'fragmenter':
+            return
+        c['frags2'] = call.result
+
     def mass_post(call):
         c = st.case
         if c is None or call.depth != 0 or c.get('phase') != 'mass':
@@ -56,6 +64,7 @@ def install(ctx, st: State):
 
     ctx.eng.attach('peptacular.fragmentation.fragment', post=frag_post)
     ctx.eng.attach('peptacular.mass_calc.mass', post=mass_post)
+    ctx.eng.attach('peptacular.fragmentation.Fragmenter.fragment', post=fragmenter_post)
     return pt
 
 
@@ -183,7 +192,7 @@ def run_case(ctx, st, pt, p: Pep, mono, charges):
     try:
         c['phase'] = 'mass'
         c['key'] = ('p', 0)
-        pt.mass(text, monoisotopic=mono)
+        pt.mass(text, charge=0, monoisotopic=mono)   # the neutral peptide, also when the text carries a charge state
         c['M'] = c['masses'].get(('p', 0))
         for t in ['b', 'y', 'a', 'c', 'x', 'z', 'by', 'ay', 'cz', 'bx']:
             z = ctx.rng.choice([1, 2, 3])
@@ -197,10 +206,17 @@ def run_case(ctx, st, pt, p: Pep, mono, charges):
             pt.fragment(p.seq, list(chem.ALL_ION_TYPES), [1], monoisotopic=mono)
             c['unmod'] = c['frags']
             c['frags'] = frags
+        # the class-based fragmenter (cached per-residue masses) must obey the same identities
+        c['phase'] = 'fragmenter'
+        c['frags2'] = None
+        pt.Fragmenter(text, mono).fragment(list(chem.ALL_ION_TYPES), charges)
         c['phase'] = 'done'
-        if c['M'] is None or c['frags'] is None:
+        if c['M'] is None or c['frags'] is None or c['frags2'] is None:
             ctx.inconclusive_case('monitor not reached')
         else:
+            check(ctx, st, c)
+            c['frags'], c['text'] = c['frags2'], c['text'] + '  [Fragmenter]'
+            c['unmod'] = None
             check(ctx, st, c)
     except Exception as ex:
         ctx.decided()
@@ -217,9 +233,9 @@ def run(ctx):
     st = State()
     pt = install(ctx, st)
     cfg = gp.GenCfg(min_len=2, max_len=15, letters=LETTERS, weights=dict(gp.W_NUMFORM), p_labile=0, p_unknown=0,
-                    p_interval=0, p_charge=0, p_isotope=0, p_static=0, p_tag=0, p_alt=0, p_mult=0.1, p_res=0.25)
+                    p_interval=0, p_charge=0.15, p_adducts=0, p_isotope=0, p_static=0, p_tag=0, p_alt=0, p_mult=0.1, p_res=0.25)
     small = gp.GenCfg(min_len=2, max_len=8, letters=LETTERS, weights=dict(gp.W_NUMFORM), p_labile=0, p_unknown=0,
-                      p_interval=0, p_charge=0, p_isotope=0, p_static=0, p_tag=0, p_alt=0, p_mult=0.1, p_res=0.3)
+                      p_interval=0, p_charge=0.15, p_adducts=0, p_isotope=0, p_static=0, p_tag=0, p_alt=0, p_mult=0.1, p_res=0.3)
     for i in range(ctx.n(5000, 200000)):
         p = gp.gen_pep(ctx.rng, small if i % 2 else cfg)
         for m in p.all_mods():
